@@ -1454,6 +1454,7 @@ func confirmBySchedule(tp targetPkg, ov map[string][]byte, ce *CounterExample, v
 		ov2[k] = v
 	}
 	byFile := map[string][]PausePoint{}
+	pauseIdx := 0
 	for _, pp := range ce.Pauses {
 		switch pp.Kind {
 		case "lock", "rlock", "encode", "decode", "send", "recv", "select", "wg.Wait", "verifYield":
@@ -1474,21 +1475,32 @@ func confirmBySchedule(tp targetPkg, ov map[string][]byte, ce *CounterExample, v
 		lines := strings.Split(string(src), "\n")
 		sort.Slice(pps, func(i, j int) bool { return pps[i].Line > pps[j].Line })
 		last := -1
-		for _, pp := range pps {
-			if pp.Line == last || pp.Line < 1 || pp.Line > len(lines) {
-				continue
-			}
-			last = pp.Line
-			lines = append(lines[:pp.Line-1], append([]string{"verifPauseTime.Sleep(400 * verifPauseTime.Millisecond) // verif: preemption point"}, lines[pp.Line-1:]...)...)
-		}
-		// alias import right after the package clause
-		for i, l := range lines {
+		_ = last
+		pkgName := ""
+		for _, l := range lines {
 			if strings.HasPrefix(l, "package ") {
-				lines = append(lines[:i+1], append([]string{"import verifPauseTime \"time\""}, lines[i+1:]...)...)
+				pkgName = strings.Fields(l)[1]
 				break
 			}
 		}
+		for _, pp := range pps {
+			if pp.Line < 1 || pp.Line > len(lines) {
+				continue
+			}
+			last = pp.Line
+			occ := pp.Occ
+			if occ < 1 {
+				occ = 1
+			}
+			lines = append(lines[:pp.Line-1], append([]string{fmt.Sprintf("verifPauseHere(%d, %d) // verif: preemption point", pauseIdx, occ)}, lines[pp.Line-1:]...)...)
+			pauseIdx++
+		}
 		ov2[file] = []byte(strings.Join(lines, "\n"))
+		// the pause helper lives in the same package: only the occ-th visit of the line sleeps
+		helper := filepath.Join(filepath.Dir(file), "zz_verif_pausepoints.go")
+		if _, done := ov2[helper]; !done {
+			ov2[helper] = []byte("package " + pkgName + "\n\nimport (\n\t\"sync/atomic\"\n\t\"time\"\n)\n\nvar verifPauseCounters [64]int64\n\nfunc verifPauseHere(i int, occ int64) {\n\tif atomic.AddInt64(&verifPauseCounters[i], 1) == occ {\n\t\ttime.Sleep(400 * time.Millisecond)\n\t}\n}\n")
+		}
 	}
 	rp := newReplayer(ov2)
 	defer rp.cleanup()
